@@ -177,7 +177,10 @@ class C01(Spec):
     rule = ("one case = a program (2-4 threads, 1-4 Push/Pop each) + a schedule (list of thread ids, one entry = one "
             "shared-memory access of the real code = one model transition); schedule sets with transition coverage of the "
             "model's reachable state graph for the small configurations (from `drv_msqueue explore`) + random/bursty/PCT "
-            "schedules of larger shapes; compared per step: thread, load/CAS, address class (head|tail|n<k>.next), loaded "
+            "schedules of larger shapes + LONG-STALL schedules (one operation suspended before each of its shared accesses "
+            "in turn while the other threads complete 40-260 operations, then resumed; histories > 20 ops are judged by "
+            "the cheap conditions: every popped value pushed exactly once, per-producer FIFO, final drain accounts for "
+            "everything); compared per step: thread, load/CAS, address class (head|tail|n<k>.next), loaded "
             "node / CAS outcome, return values, final list, final API pops. distinct by script line; non-trivial = the "
             "run contains a failed CAS or a helping CAS")
     trusted_base = ["controlled scheduler harness/csched + verifYield hooks in loom/queue.go (build tag verif): one hook per "
